@@ -9,6 +9,7 @@ import (
 	"sync"
 	"time"
 
+	"github.com/rqlite/rqlite/v10/internal/vhook"
 	"go.etcd.io/bbolt"
 )
 
@@ -305,8 +306,10 @@ func (q *Queue) run(highestKey uint64) {
 					}
 					highestKey = req.idx
 				}
+				vhook.Crash("fifo.enq.intx")
 				return nil
 			})
+			vhook.Crash("fifo.enq.committed")
 			req.respChan <- enqueueResp{err: err}
 			if err == nil && nextEv == nil {
 				if err := loadHead(); err != nil {
@@ -338,8 +341,10 @@ func (q *Queue) run(highestKey uint64) {
 					}
 				}
 				stats.Add(fifoSize, -int64(len(keysToDelete)))
+				vhook.Crash("fifo.del.intx")
 				return nil
 			})
+			vhook.Crash("fifo.del.committed")
 			// Ensure cursor moves past deleted range
 			if err == nil && nextFrom != 0 && nextFrom <= req.idx {
 				nextFrom = req.idx + 1
